@@ -50,7 +50,7 @@ impl LowRankMassMatrixStrategy {
         self.grads.clear();
     }
 
-    pub fn update<M: Math>(&self, math: &mut M, matrix: &mut LowRankMassMatrix<M>) {
+    pub fn update<M: Math>(&self, math: &mut M, matrix: &mut LowRankMassMatrix<M>) -> bool {
         let ndraws = self.draws.len();
         assert!(self.grads.len() == ndraws);
 
@@ -64,10 +64,10 @@ impl LowRankMassMatrixStrategy {
 
         let Some((stds, mean, vals, vecs, mean_low_rank)) = self.compute_update(draws, grads)
         else {
-            return;
+            return false;
         };
 
-        matrix.update(math, stds, mean, vals, vecs, mean_low_rank);
+        matrix.update(math, stds, mean, vals, vecs, mean_low_rank)
     }
 
     fn compute_update(
@@ -333,8 +333,7 @@ impl<M: Math> MassMatrixAdaptStrategy<M> for LowRankMassMatrixStrategy {
         if <LowRankMassMatrixStrategy as MassMatrixAdaptStrategy<M>>::current_count(self) < 3 {
             return false;
         }
-        self.update(math, mass_matrix);
-        true
+        self.update(math, mass_matrix)
     }
 }
 
